@@ -178,7 +178,9 @@ func (d *Device) handleABSEvent(ie *input.InputEvent) {
 		}
 	}
 
-	if d.ccLearning && !(value < -0.5 || value > 0.5) {
+	// CC learning filters controller traffic only: an emulated key or action must always see its return to centre
+	emulation := analog.MappingType == config.AnalogKeySim || analog.MappingType == config.AnalogActionSim
+	if d.ccLearning && !emulation && !(value < -0.5 || value > 0.5) {
 		return
 	}
 
